@@ -1,7 +1,7 @@
 /-
   Relic.Model.Transport — executable model of
     * `(*client).doRequest` / `buildRequest` in /repo/cmdline/remotecmd/client.go (server list
-      repetition up to `remote.retries`, the `for i, base := range bases` loop, the 406 fallback
+      repetition up to `remote.retries`, the `for i, base := range bases` loop, the 406/415 fallback
       `encodings = ""; goto loop`, `httperror.Temporary` classification of HTTP statuses),
     * `selectEncoding` and the error path of `CompressRequest` (`compress`, `pw.CloseWithError(err)`)
       in /repo/lib/compresshttp/compress.go,
@@ -161,7 +161,7 @@ def pass (file : Bytes) (encs : Str) : List Nat → List Outcome → List Attemp
     match (roundTrip a.enc file (sc.headD (.status 200))).1 with
     | .response c =>
       if c < 300 then ([a], .final (.response c b), sc.tail)
-      else if c = 406 ∧ encs ≠ [] then ([a], .restart, sc.tail)
+      else if (c = 406 ∨ c = 415) ∧ encs ≠ [] then ([a], .restart, sc.tail)   -- (415: since the repair of F-chttp-415)
       else if statusIsTemporary c = true ∧ rest ≠ [] then
         let r := pass file encs rest sc.tail
         (a :: r.1, r.2.1, r.2.2)
@@ -169,6 +169,25 @@ def pass (file : Bytes) (encs : Str) : List Nat → List Outcome → List Attemp
     | .error t =>
       if t = true ∧ rest ≠ [] then
         let r := pass file encs rest sc.tail
+        (a :: r.1, r.2.1, r.2.2)
+      else ([a], .final .netError, sc.tail)
+
+/-- `pass` as the loop was BEFORE the repair of F-chttp-415: only 406 clears `encodings` -/
+def passOrig (file : Bytes) (encs : Str) : List Nat → List Outcome → List Attempt × PassRes × List Outcome
+  | [], sc => ([], .final .nothing, sc)
+  | b :: rest, sc =>
+    let a : Attempt := ⟨b, encs, selectEncoding encs, getReader file 0⟩
+    match (roundTrip a.enc file (sc.headD (.status 200))).1 with
+    | .response c =>
+      if c < 300 then ([a], .final (.response c b), sc.tail)
+      else if c = 406 ∧ encs ≠ [] then ([a], .restart, sc.tail)
+      else if statusIsTemporary c = true ∧ rest ≠ [] then
+        let r := passOrig file encs rest sc.tail
+        (a :: r.1, r.2.1, r.2.2)
+      else ([a], .final (.httpError c), sc.tail)
+    | .error t =>
+      if t = true ∧ rest ≠ [] then
+        let r := passOrig file encs rest sc.tail
         (a :: r.1, r.2.1, r.2.2)
       else ([a], .final .netError, sc.tail)
 
@@ -193,6 +212,21 @@ def doRequest (file : Bytes) (encs : Str) (bases : List Nat) (retries : Int) (sc
     | .final f => .ok (r1.1, f)
     | .restart =>
       let r2 := pass file [] bs r1.2.2
+      match r2.2.1 with
+      | .final f => .ok (r1.1 ++ r2.1, f)
+      | .restart => .panic "unreachable: second 406 restart"
+
+/-- `doRequest` before the repair of F-chttp-415 -/
+def doRequestOrig (file : Bytes) (encs : Str) (bases : List Nat) (retries : Int) (script : List Outcome) :
+    Res (List Attempt × Final) :=
+  match expand bases retries with
+  | none => .diverge
+  | some bs =>
+    let r1 := passOrig file encs bs script
+    match r1.2.1 with
+    | .final f => .ok (r1.1, f)
+    | .restart =>
+      let r2 := passOrig file [] bs r1.2.2
       match r2.2.1 with
       | .final f => .ok (r1.1 ++ r2.1, f)
       | .restart => .panic "unreachable: second 406 restart"
